@@ -12,27 +12,37 @@ def pKind : P IfaceKind := do
   | "n" => pure .neither
   | _ => failure
 
-def pTask : P TaskKind := do
+/-- a task with its observed wiring: `w1` the task's link-state channel is a subscription of the
+    server's watcher, `w0` it has none, `wx` it has one that is not; `t1` the advertiser's
+    terminate function follows the server's terminator -/
+def pTask : P (TaskKind × List String) := do
   let t ← P.tok
   match t with
-  | "a" => do let i ← P.nat; pure (.advertiser i)
-  | "m" => do let i ← P.nat; pure (.monitor i)
-  | "h" => pure .http
-  | "w" => pure .watcher
+  | "a" => do let i ← P.nat; let w ← P.tok; let tm ← P.tok; pure (.advertiser i, [w, tm])
+  | "m" => do let i ← P.nat; let w ← P.tok; pure (.monitor i, [w])
+  | "h" => pure (.http, [])
+  | "w" => pure (.watcher, [])
   | _ => failure
 
-def taskTok : TaskKind → String
-  | .advertiser i => s!"a {i}"
-  | .monitor i => s!"m {i}"
-  | .http => "h"
-  | .watcher => "w"
+def wiring (watcher : Bool) : TaskKind → List String
+  | .advertiser _ => [if watcher then "w1" else "w0", "t1"]
+  | .monitor _ => [if watcher then "w1" else "w0"]
+  | _ => []
 
-def tasksToks (l : List TaskKind) : String :=
-  s!"{l.length}" ++ String.join (l.map fun t => " " ++ taskTok t)
+def taskTok (watcher : Bool) (t : TaskKind) : String :=
+  let base := match t with
+    | .advertiser i => s!"a {i}"
+    | .monitor i => s!"m {i}"
+    | .http => "h"
+    | .watcher => "w"
+  " ".intercalate (base :: wiring watcher t)
+
+def tasksToks (watcher : Bool) (l : List TaskKind) : String :=
+  s!"{l.length}" ++ String.join (l.map fun t => " " ++ taskTok watcher t)
 
 def bt (c impl : List String) : Option Verdict := do
   let (ifs, d, w) ← P.run (do let l ← P.list pKind; let d ← P.bool; let w ← P.bool; pure (l, d, w)) c
-  let model := tasksToks (buildTasks ifs d w)
+  let model := tasksToks w (buildTasks ifs d w)
   let nt := ifs.any (· == .neither) && ifs.any (· != .neither)
   match impl with
   | ["panic"] =>
@@ -41,10 +51,14 @@ def bt (c impl : List String) : Option Verdict := do
     match P.run (P.list pTask) impl with
     | none => pure { model := model, oracle := false, nontrivial := nt, note := "BuildTasks returned a task of an unknown kind" }
     | some got =>
-      let ok := Spec.C20.holdsTasks ifs d w got
-      pure { model := model, oracle := ok, nontrivial := nt,
-             note := if ok then "" else
-               s!"task list is not one task per advertising/monitoring interface in order, then http iff an address is set, then the watcher: want {tasksToks (Spec.C20.wantTasks ifs d w)}" }
+      let kindsOk := Spec.C20.holdsTasks ifs d w (got.map (·.1))
+      let wiredOk := got.all fun (t, fl) => fl == wiring w t
+      pure { model := model, oracle := kindsOk && wiredOk, nontrivial := nt,
+             note := if !kindsOk then
+               s!"task list is not one task per advertising/monitoring interface in order, then http iff an address is set, then the watcher: want {tasksToks w (Spec.C20.wantTasks ifs d w)}"
+             else if !wiredOk then
+               "an interface task is not wired to the server's link watcher (its channel must be a subscription of the watcher iff there is one) or its terminate function is not the server's terminator"
+             else "" }
 
 /-! ### Serve:
   `sv n (exit exitAt onCancelErr slow readyAt)* sig sigAt gate
